@@ -495,9 +495,6 @@ handle_arglist(spif_int32_t n, spif_charptr_t val_ptr, unsigned char hasequal,
         for (k = 0; k < len; k++) {
             tmp[k] = (spif_charptr_t) STRDUP(argv[k + i]);
             D_OPTIONS(("tmp[%d] == %s\n", k, tmp[k]));
-            if (SPIFOPT_FLAGS_IS_SET(SPIFOPT_SETTING_REMOVE_ARGS)) {
-                argv[k + i] = NULL;
-            }
         }
         tmp[k] = (spif_charptr_t) NULL;
         *((spif_charptr_t **) SPIFOPT_OPT_VALUE(n)) = tmp;
@@ -654,6 +651,12 @@ spifopt_parse(int argc, char *argv[])
                 handle_arglist(j, val_ptr, hasequal, i, argc, argv);
             }
             if (!hasequal) {
+                /* The list swallows the rest of the command line, whichever pass assigns it. */
+                if (!SPIFOPT_FLAGS_IS_SET(SPIFOPT_SETTING_PREPARSE) && SPIFOPT_FLAGS_IS_SET(SPIFOPT_SETTING_REMOVE_ARGS)) {
+                    for (; i < argc; i++) {
+                        argv[i] = NULL;
+                    }
+                }
                 break;
             }
         } else if (SPIFOPT_OPT_IS_ABSTRACT(j)) {
